@@ -670,19 +670,10 @@ func (r *Renderer) renderText(w util.BufWriter, source []byte, node ast.Node, en
 			}
 		} else if n.SoftLineBreak() {
 			if r.EastAsianLineBreaks != EastAsianLineBreaksNone && len(value) != 0 {
-				sibling := node.NextSibling()
-				if sibling != nil && sibling.Kind() == ast.KindText {
-					if siblingText := sibling.(*ast.Text).Value(source); len(siblingText) != 0 {
-						thisLastRune := util.ToRune(value, len(value)-1)
-						siblingFirstRune, _ := utf8.DecodeRune(siblingText)
-						if r.EastAsianLineBreaks.softLineBreak(thisLastRune, siblingFirstRune) {
-							_ = w.WriteByte('\n')
-						}
-					}
-				} else if siblingFirstRune, ok := firstTextRune(sibling, source); !ok ||
+				// decide on the first character of the text that follows the break (the sibling may be an
+				// emphasis, link, code span, ...), and keep the break when there is none
+				if siblingFirstRune, ok := firstTextRune(node.NextSibling(), source); !ok ||
 					r.EastAsianLineBreaks.softLineBreak(util.ToRune(value, len(value)-1), siblingFirstRune) {
-					// the break is followed by a non-text node (emphasis, link, code span, ...): decide on
-					// the first character of its text, and keep the break when it has none
 					_ = w.WriteByte('\n')
 				}
 			} else {
